@@ -49,14 +49,30 @@
  * ============================================================================
  */
 
+/* An arena that cannot grow puts the decoder into its error state: every loop
+ * over the fields of the enclosing structs ends (thrift_read_field_begin
+ * returns false) and the parse functions report the error. */
+static void decoder_out_of_memory(thrift_decoder_t* dec) {
+    if (dec->status == CARQUET_OK) {
+        dec->status = CARQUET_ERROR_OUT_OF_MEMORY;
+        strncpy(dec->error_message, "Out of memory", sizeof(dec->error_message) - 1);
+        dec->error_message[sizeof(dec->error_message) - 1] = '\0';
+    }
+}
+
 static char* arena_strdup_thrift(carquet_arena_t* arena, thrift_decoder_t* dec) {
     int32_t len;
+    char* copy;
     const uint8_t* data = thrift_read_binary(dec, &len);
     if (!data && len == 0) {
-        return carquet_arena_strdup(arena, "");
+        copy = carquet_arena_strdup(arena, "");
+    } else if (!data) {
+        return NULL;
+    } else {
+        copy = carquet_arena_strndup(arena, (const char*)data, (size_t)len);
     }
-    if (!data) return NULL;
-    return carquet_arena_strndup(arena, (const char*)data, (size_t)len);
+    if (!copy) decoder_out_of_memory(dec);
+    return copy;
 }
 
 static uint8_t* arena_bindup_thrift(carquet_arena_t* arena, thrift_decoder_t* dec, int32_t* out_len) {
@@ -65,7 +81,12 @@ static uint8_t* arena_bindup_thrift(carquet_arena_t* arena, thrift_decoder_t* de
     *out_len = len;
     if (!data || len == 0) return NULL;
     if (!arena) return (uint8_t*)data;  /* no arena: reference the input buffer */
-    return carquet_arena_memdup(arena, data, (size_t)len);
+    uint8_t* copy = carquet_arena_memdup(arena, data, (size_t)len);
+    if (!copy) {
+        *out_len = 0;
+        decoder_out_of_memory(dec);
+    }
+    return copy;
 }
 
 /* ============================================================================
@@ -334,6 +355,11 @@ static void parse_column_metadata(thrift_decoder_t* dec, carquet_arena_t* arena,
                 VALIDATE_COUNT(count, CARQUET_MAX_ENCODINGS, dec);
                 meta->num_encodings = count;
                 meta->encodings = carquet_arena_calloc(arena, count, sizeof(carquet_encoding_t));
+                if (count > 0 && !meta->encodings) {
+                    meta->num_encodings = 0;
+                    decoder_out_of_memory(dec);
+                    break;
+                }
                 for (int32_t i = 0; i < count; i++) {
                     meta->encodings[i] = (carquet_encoding_t)thrift_read_i32(dec);
                 }
@@ -346,6 +372,11 @@ static void parse_column_metadata(thrift_decoder_t* dec, carquet_arena_t* arena,
                 VALIDATE_COUNT(count, CARQUET_MAX_PATH_ELEMENTS, dec);
                 meta->path_len = count;
                 meta->path_in_schema = carquet_arena_calloc(arena, count, sizeof(char*));
+                if (count > 0 && !meta->path_in_schema) {
+                    meta->path_len = 0;
+                    decoder_out_of_memory(dec);
+                    break;
+                }
                 for (int32_t i = 0; i < count; i++) {
                     meta->path_in_schema[i] = arena_strdup_thrift(arena, dec);
                 }
@@ -371,6 +402,11 @@ static void parse_column_metadata(thrift_decoder_t* dec, carquet_arena_t* arena,
                 meta->num_key_value = count;
                 meta->key_value_metadata = carquet_arena_calloc(arena, count,
                     sizeof(parquet_key_value_t));
+                if (count > 0 && !meta->key_value_metadata) {
+                    meta->num_key_value = 0;
+                    decoder_out_of_memory(dec);
+                    break;
+                }
                 for (int32_t i = 0; i < count; i++) {
                     thrift_read_struct_begin(dec);
                     thrift_type_t ft;
@@ -407,6 +443,11 @@ static void parse_column_metadata(thrift_decoder_t* dec, carquet_arena_t* arena,
                 meta->num_encoding_stats = count;
                 meta->encoding_stats = carquet_arena_calloc(arena, count,
                     sizeof(parquet_page_encoding_stats_t));
+                if (count > 0 && !meta->encoding_stats) {
+                    meta->num_encoding_stats = 0;
+                    decoder_out_of_memory(dec);
+                    break;
+                }
                 for (int32_t i = 0; i < count; i++) {
                     thrift_read_struct_begin(dec);
                     thrift_type_t ft;
@@ -513,6 +554,11 @@ static void parse_row_group(thrift_decoder_t* dec, carquet_arena_t* arena,
                 rg->num_columns = count;
                 rg->columns = carquet_arena_calloc(arena, count,
                     sizeof(parquet_column_chunk_t));
+                if (count > 0 && !rg->columns) {
+                    rg->num_columns = 0;
+                    decoder_out_of_memory(dec);
+                    break;
+                }
                 for (int32_t i = 0; i < count; i++) {
                     parse_column_chunk(dec, arena, &rg->columns[i]);
                 }
@@ -593,6 +639,11 @@ carquet_status_t parquet_parse_file_metadata(
                 metadata->num_schema_elements = count;
                 metadata->schema = carquet_arena_calloc(arena, count,
                     sizeof(parquet_schema_element_t));
+                if (count > 0 && !metadata->schema) {
+                    metadata->num_schema_elements = 0;
+                    decoder_out_of_memory(&dec);
+                    break;
+                }
                 for (int32_t i = 0; i < count; i++) {
                     parse_schema_element(&dec, arena, &metadata->schema[i]);
                 }
@@ -609,6 +660,11 @@ carquet_status_t parquet_parse_file_metadata(
                 metadata->num_row_groups = count;
                 metadata->row_groups = carquet_arena_calloc(arena, count,
                     sizeof(parquet_row_group_t));
+                if (count > 0 && !metadata->row_groups) {
+                    metadata->num_row_groups = 0;
+                    decoder_out_of_memory(&dec);
+                    break;
+                }
                 for (int32_t i = 0; i < count; i++) {
                     parse_row_group(&dec, arena, &metadata->row_groups[i]);
                 }
@@ -622,6 +678,11 @@ carquet_status_t parquet_parse_file_metadata(
                 metadata->num_key_value = count;
                 metadata->key_value_metadata = carquet_arena_calloc(arena, count,
                     sizeof(parquet_key_value_t));
+                if (count > 0 && !metadata->key_value_metadata) {
+                    metadata->num_key_value = 0;
+                    decoder_out_of_memory(&dec);
+                    break;
+                }
                 for (int32_t i = 0; i < count; i++) {
                     thrift_read_struct_begin(&dec);
                     thrift_type_t ft;
